@@ -38,9 +38,28 @@ pub(crate) struct CommitOracle {
 	inner: Mutex<OracleInner>,
 }
 
+/// What a published stamp overwrote, so that `rollback` can undo exactly its own
+/// publish instead of erasing an earlier committer's stamp.
+#[derive(Clone, Copy, PartialEq, Eq)]
+enum Prev {
+	/// The fingerprint had no entry.
+	Absent,
+	/// The fingerprint carried this stamp.
+	Stamp(u64),
+	/// Not known any more (the entry was itself restored by a rollback).
+	Unknown,
+}
+
+#[derive(Clone, Copy)]
+struct Stamped {
+	seq: u64,
+	prev: Prev,
+}
+
 struct OracleInner {
-	// xxh3_64(key) -> commit_seq of the most recent writer of that key.
-	recent_writes: HashMap<u64, u64>,
+	// xxh3_64(key) -> commit_seq of the most recent writer of that key
+	// (plus what that writer's publish overwrote).
+	recent_writes: HashMap<u64, Stamped>,
 
 	// The smallest seq still represented in the map: every commit at
 	// `seq >= kept_since` is recorded. A txn with `start_seq < kept_since`
@@ -100,8 +119,8 @@ impl CommitOracle {
 			return Err(Error::TransactionRetry);
 		}
 		for k in keys {
-			if let Some(&committed) = g.recent_writes.get(&fp(k)) {
-				if committed > start_seq {
+			if let Some(committed) = g.recent_writes.get(&fp(k)) {
+				if committed.seq > start_seq {
 					return Err(Error::TransactionWriteConflict);
 				}
 			}
@@ -131,7 +150,24 @@ impl CommitOracle {
 		let mut g = self.inner.lock();
 		let stamp = seq_num + count - 1;
 		for k in keys {
-			g.recent_writes.insert(fp(k), stamp);
+			match g.recent_writes.entry(fp(k)) {
+				std::collections::hash_map::Entry::Occupied(mut e) => {
+					let cur = e.get().seq;
+					// A key repeated inside one batch keeps its first `prev`.
+					if cur != stamp {
+						e.insert(Stamped {
+							seq: stamp,
+							prev: Prev::Stamp(cur),
+						});
+					}
+				}
+				std::collections::hash_map::Entry::Vacant(e) => {
+					e.insert(Stamped {
+						seq: stamp,
+						prev: Prev::Absent,
+					});
+				}
+			}
 		}
 
 		// `saturating_add` so the counter doesn't overflow if the watermark
@@ -162,7 +198,7 @@ impl CommitOracle {
 			}
 			g.commits_since_gc = 0;
 			g.kept_since = oldest_active;
-			g.recent_writes.retain(|_, v| *v >= oldest_active);
+			g.recent_writes.retain(|_, v| v.seq >= oldest_active);
 		}
 	}
 
@@ -196,8 +232,27 @@ impl CommitOracle {
 		for k in keys {
 			let fk = fp(k);
 			if let Some(&v) = g.recent_writes.get(&fk) {
-				if v == my_seq {
-					g.recent_writes.remove(&fk);
+				if v.seq == my_seq {
+					match v.prev {
+						// Nothing was there before us: forget the fingerprint.
+						Prev::Absent => {
+							g.recent_writes.remove(&fk);
+						}
+						// Put back the stamp our publish overwrote: an earlier
+						// committer of this key must stay visible to `check`.
+						Prev::Stamp(p) => {
+							g.recent_writes.insert(
+								fk,
+								Stamped {
+									seq: p,
+									prev: Prev::Unknown,
+								},
+							);
+						}
+						// Cannot tell what was below: keep the stamp (may cause a
+						// spurious conflict, never a missed one).
+						Prev::Unknown => {}
+					}
 				}
 			}
 		}
